@@ -1,7 +1,6 @@
 package twig
 
 import (
-	"fmt"
 	"io"
 	"strconv"
 	"sync"
@@ -623,8 +622,8 @@ func stringify(val interface{}) string {
 		return string(v)
 	}
 
-	// Fall back to fmt.Sprintf for complex types
-	return fmt.Sprintf("%v", val)
+	// Complex types: like fmt's %v, but safe for values that contain themselves
+	return formatWithoutAddresses(val)
 }
 
 // GetTokenBuffer gets a token buffer with capacity optimized for the given template size
